@@ -43,7 +43,8 @@ Lemma frame_scalar e t h r h' : handler e t h = (r, h') ->
   (~ In WMaxBody ws -> max_body (h_st h) = max_body (h_st h')) /\
   (~ In WNextNonce ws -> next_nonce (h_st h) = next_nonce (h_st h')) /\
   (~ In WThreshold ws -> threshold (h_st h) = threshold (h_st h')).
-Proof. intros H. apply handler_writes in H. unfold agree_except in H. tauto. Qed.
+Proof. intros H. apply handler_writes in H. unfold agree_except in H.
+  destruct H as (A1&A2&A3&A4&A5&A6&A7&A8&A9&A10&_). cbv zeta. repeat split; assumption. Qed.
 
 (* the same facts for deliver *)
 Lemma deliver_frame {A} (f : store -> A) e c plan t :
